@@ -116,6 +116,14 @@ def random_bank_desc(ctx, kind=None):
         d.pop("scale_arg", None)
     d["low_hz"] = low
     d["high_hz"] = r.choice([None, None, rate // 2, rate / 4, rate // 2 - 100, round(0.37 * rate, 2), low + r.choice([50.0, 400.0, 1500.0])])
+    if kind == "tri" and r.random() < 0.2:
+        # the documented 1 Hz leeway above the Nyquist frequency: the top edge must still be
+        # clamped to it (needs a DFT finer than the excess to show)
+        d["rate"] = rate = r.choice([1000, 1000.0, 2000, 501.0])
+        d["low_hz"] = r.choice([0, 20.0])
+        d["high_hz"] = rate / 2 + r.choice([0.25, 0.5, 1.0])
+        if d["scale"] == "octave":
+            d["low_hz"] = 20.0
     if kind in ("tri", "fbank"):
         d["analytic"] = r.random() < 0.5
     if kind in ("gabor", "gt"):
@@ -162,9 +170,17 @@ def widths_for(ctx, bank, i, n):
             w0 = int(round(kk * rate / f))
             if 2 <= w0 <= hi_w:
                 ws.add(w0)
+    must = []
+    if hi >= rate / 2 - 1e-6:
+        # supports reaching the Nyquist frequency: DFTs fine enough to resolve a fraction of a Hz
+        for m in (1, 1.5, 2, 4):
+            for w0 in (int(rate * m) | 1, int(rate * m) & ~1):
+                if 2 <= w0 <= 4096:
+                    must.append(w0)
+        must = r.sample(must, min(len(must), 3))
     ws = [w for w in ws if w >= 2]
     r.shuffle(ws)
-    return sorted(ws[:n])
+    return sorted(set(ws[:n] + must))
 
 
 # --------------------------------------------------------------------------
